@@ -51,6 +51,23 @@ theorem generated_maptotags_shape :
      before l (·.isCall "AddTags") (·.isCall "WriteAuditLogToFile") &&
      before l (·.isCall "WriteAuditLogToFile") (fun a => a.isCall "Send" && a.args == ["ip"])) = true := by decide
 
+/-- the record is complete before any copy of it is written: the loop that fills `OutFiles` is closed
+before the loop that attaches and writes the record starts; and the command that is executed is
+exactly the recorded `t.Command` (wrapped in `cd <tmp> && … && cd ..`) -/
+theorem generated_record_complete_before_written :
+    (let l := Scipipe.Task_writeAuditLogs
+     let rem := (l.dropWhile (fun a => !(a.kind == .assign_ && a.name == "auditInfo.OutFiles[oipName]"))).drop 1
+     (rem.head?.map fun a => a.kind == .endB_ && a.name == "range") == some true &&
+     before rem (fun a => a.kind == .rangeB_ && a.name == "OutIPs") (·.isCall "SetAuditInfo") &&
+     count (fun a => a.kind == .rangeB_ && a.name == "OutIPs") l == 2 &&
+     count (·.isCall "WriteAuditLogToFile") l == 1 &&
+     Scipipe.Task_Execute.any (fun a => a.isCall "executeCommand" && a.args == ["t.Command"]) &&
+     Scipipe.Task_executeCommand.any (fun a => a.isCall "Command" && a.recv == "exec" &&
+       a.args == ["\"bash\"", "\"-c\"", "\"cd \" + t.TempDir() + \" && \" + cmd + \" && cd ..\""]) &&
+     count (fun a => a.kind == .assign_ && a.name == "cmd") Scipipe.Task_executeCommand == 0 &&
+     Scipipe.NewTask.any (fun a => a.kind == .assign_ && a.name == "t.Command" &&
+       a.args == ["t.formatCommand(cmdPat, portInfos, inIPs, t.subStreamIPs, t.OutIPs, params, tags, prepend)"])) = true := by decide
+
 /-- tags are copied entry by entry into the record's own map: `AddTags` is exactly a loop of `AddTag`,
 and `AddTag` only writes `ai.Tags[k]` (no map is ever adopted by reference, so two records never share
 a tag map) -/
@@ -62,6 +79,7 @@ theorem generated_tags_copied :
 
 end SciVerif.Tie
 #print axioms SciVerif.Tie.generated_tags_copied
+#print axioms SciVerif.Tie.generated_record_complete_before_written
 #print axioms SciVerif.Tie.generated_audit_record_shape
 #print axioms SciVerif.Tie.generated_times_bracket_command
 #print axioms SciVerif.Tie.generated_auditinfo_fields
